@@ -44,7 +44,7 @@ func TestZZVerifRoundTrip(t *testing.T) {
 	if K == 0 {
 		t.Skip("VERIF_C17_K not set")
 	}
-	alphabet := []rune{'a', ' ', '\t', '"', '\'', '\\', '-', '$', 'é', 'à', '\n'}
+	alphabet := []rune{'a', ' ', '\t', '"', '\'', '\\', '-', '$', '\u0485', 'à', '\n'} // U+0485: UTF-8 D2 85, low byte 0x85 (a Latin-1 white space code); à: UTF-8 C3 A0
 	checked, maxq := 0, 0
 	var fail []string
 	var gen func(args []string, cur []rune, budget int)
